@@ -46,6 +46,8 @@ func (c call) String() string {
 		return fmt.Sprintf("getAtRev(%s,-%d)", c.K, c.Tx)
 	case "getAll":
 		return fmt.Sprintf("getAll(%s,%s)", c.K, c.K2)
+	case "setRef":
+		return fmt.Sprintf("setRef(%s->%s)", c.K, c.K2)
 	}
 	return fmt.Sprintf("%s(%s=%s)", c.Kind, c.K, c.V)
 }
@@ -56,6 +58,7 @@ type ver struct {
 	v   string
 	tx  uint64
 	del bool
+	ref string // != "": this version makes the key a reference to that key
 }
 
 type mstate struct {
@@ -74,7 +77,7 @@ func (s mstate) key() string {
 	for _, k := range ks {
 		fmt.Fprintf(&b, "%s=", k)
 		for _, v := range s.kv[k] {
-			fmt.Fprintf(&b, "%s@%d/%v,", v.v, v.tx, v.del)
+			fmt.Fprintf(&b, "%s@%d/%v/%s,", v.v, v.tx, v.del, v.ref)
 		}
 		b.WriteString(";")
 	}
@@ -111,14 +114,29 @@ func step(s mstate, c call, out string) (bool, mstate) {
 		n := s.clone()
 		n.ntx++
 		for k, v := range sets {
-			n.kv[k] = append(n.kv[k], ver{v, n.ntx, false})
+			n.kv[k] = append(n.kv[k], ver{v: v, tx: n.ntx})
 		}
 		for _, k := range dels {
-			n.kv[k] = append(n.kv[k], ver{"", n.ntx, true})
+			n.kv[k] = append(n.kv[k], ver{tx: n.ntx, del: true})
 		}
 		return true, n
 	}
 	switch c.Kind {
+	case "setRef":
+		// SetReference(K -> K2): refused when K holds a final (non-reference) value or K2 is missing / itself a reference
+		vs := s.kv[c.K]
+		final := len(vs) > 0 && !vs[len(vs)-1].del && vs[len(vs)-1].ref == ""
+		tv, _, tok := s.live(c.K2)
+		if final || !tok || tv.ref != "" {
+			return strings.HasPrefix(out, "err:"), s
+		}
+		if out != fmt.Sprintf("tx%d", s.ntx+1) {
+			return false, s
+		}
+		n := s.clone()
+		n.ntx++
+		n.kv[c.K] = append(n.kv[c.K], ver{tx: n.ntx, ref: c.K2})
+		return true, n
 	case "set":
 		return write(map[string]string{c.K: c.V}, nil)
 	case "set2", "execAll":
@@ -268,6 +286,10 @@ func errClass(err error) string {
 		return "err:invalidrevision"
 	case errors.Is(err, store.ErrIllegalArguments):
 		return "err:illegal"
+	case errors.Is(err, database.ErrFinalKeyCannotBeConvertedIntoReference):
+		return "err:finalkey"
+	case errors.Is(err, database.ErrReferencedKeyCannotBeAReference):
+		return "err:refofref"
 	}
 	return "err:" + err.Error()
 }
@@ -295,6 +317,8 @@ func doCall(db database.DB, c call) string {
 		return hdr(db.Set(ctx, &schema.SetRequest{KVs: []*schema.KeyValue{kv(c.K, c.V)}, Preconditions: []*schema.Precondition{schema.PreconditionKeyMustNotExist([]byte(c.K))}}))
 	case "setNotModifiedAfter":
 		return hdr(db.Set(ctx, &schema.SetRequest{KVs: []*schema.KeyValue{kv(c.K, c.V)}, Preconditions: []*schema.Precondition{schema.PreconditionKeyNotModifiedAfterTX([]byte(c.K), c.Tx)}}))
+	case "setRef":
+		return hdr(db.SetReference(ctx, &schema.ReferenceRequest{Key: []byte(c.K), ReferencedKey: []byte(c.K2)}))
 	case "delete":
 		return hdr(db.Delete(ctx, &schema.DeleteKeysRequest{Keys: [][]byte{[]byte(c.K)}}))
 	case "get":
@@ -410,7 +434,7 @@ func scenario(sc scen) sched.Scenario {
 		var parts []string
 		for _, o := range ops {
 			parts = append(parts, fmt.Sprintf("c%d:%v->%v", o.ClientId, o.Input, o.Output))
-			if s, ok := o.Output.(string); ok && strings.HasPrefix(s, "err:") && s != "err:precondition" && s != "err:conflict" && s != "err:notfound" && s != "err:txnotfound" && s != "err:invalidrevision" && s != "err:illegal" {
+			if s, ok := o.Output.(string); ok && strings.HasPrefix(s, "err:") && s != "err:precondition" && s != "err:conflict" && s != "err:notfound" && s != "err:txnotfound" && s != "err:invalidrevision" && s != "err:illegal" && s != "err:finalkey" && s != "err:refofref" {
 				sched.Report("unexpected-error call="+o.Input.(call).Kind+" "+firstWords(s), fmt.Sprintf("%v -> %v", o.Input, o.Output))
 			}
 		}
@@ -450,6 +474,7 @@ func main() {
 		{"ifExists vs set", nil, [][]call{{{Kind: "setIfExists", K: k1, V: "a"}}, {{Kind: "set", K: k1, V: "b"}}}},
 		{"notModifiedAfter vs set", []call{{Kind: "set", K: k1, V: "v0"}}, [][]call{{{Kind: "setNotModifiedAfter", K: k1, V: "a", Tx: 1}}, {{Kind: "set", K: k1, V: "b"}}}},
 		{"set2 vs getAll", nil, [][]call{{{Kind: "set2", K: k1, K2: k2, V: "a"}}, {{Kind: "getAll", K: k1, K2: k2}}}},
+		{"setRef vs set", []call{{Kind: "set", K: k1, V: "v0"}}, [][]call{{{Kind: "setRef", K: "r", K2: k1}}, {{Kind: "set", K: "r", V: "b"}}}},
 		{"delete vs get;ifExists", []call{{Kind: "set", K: k1, V: "v0"}}, [][]call{{{Kind: "delete", K: k1}}, {{Kind: "get", K: k1}, {Kind: "setIfExists", K: k1, V: "c"}}}},
 		{"set vs getAtTx;getSince", []call{{Kind: "set", K: k1, V: "v0"}}, [][]call{{{Kind: "set", K: k1, V: "a"}}, {{Kind: "getAtTx", K: k1, Tx: 2}, {Kind: "getSince", K: k1, Tx: 2}}}},
 		{"set vs getAtRev", []call{{Kind: "set", K: k1, V: "v0"}}, [][]call{{{Kind: "set", K: k1, V: "a"}}, {{Kind: "getAtRev", K: k1, Tx: 1}, {Kind: "get", K: k1}}}},
